@@ -59,3 +59,35 @@ Theorem C07_quality_value : forall s n d, q_literal s = Some (n, d) ->
   (0 < qd q /\ q_num q * d <= n * qd q /\ (n * qd q - q_num q * d) * P10 15 < d * qd q)%Z.
 Proof. exact quality_truncates. Qed.
 Print Assumptions C07_quality_value.
+
+(* the float gap, mechanised with Flocq (Proofs/QualityFloat.v): Go computes the float64
+   q + float64(n)/float64(d) (fl_q: binary64, round to nearest even, every operation rounded) and
+   negotiate.go / ParseAccept compare those float64 values; the model compares the exact rationals.
+   On every value expectQuality can return (q_wf, established by C07_float_wf_parsed, and the
+   constants -1 and 1) the comparisons agree.  These theorems rest on the standard-library axioms
+   of the classical real numbers (listed by Print Assumptions). *)
+From Coq Require Import Reals.
+From V Require Import QualityFloat.
+Theorem C07_float_wf_parsed : forall s, q_wf (fst (expect_quality s)) = true.
+Proof. exact expect_quality_wf. Qed.
+Print Assumptions C07_float_wf_parsed.
+
+Theorem C07_float_order_agrees : forall a b, q_wf a = true -> q_wf b = true ->
+  (q_lt a b = true <-> (fl_q a < fl_q b)%R).
+Proof. exact float_order_agrees. Qed.
+Print Assumptions C07_float_order_agrees.
+
+Theorem C07_float_eq_agrees : forall a b, q_wf a = true -> q_wf b = true ->
+  (q_eq a b = true <-> fl_q a = fl_q b).
+Proof. exact float_eq_agrees. Qed.
+Print Assumptions C07_float_eq_agrees.
+
+Theorem C07_float_zero_agrees : forall a, q_wf a = true ->
+  (q_is0 a = true <-> fl_q a = 0%R).
+Proof. exact float_zero_agrees. Qed.
+Print Assumptions C07_float_zero_agrees.
+
+Theorem C07_float_neg_agrees : forall a, q_wf a = true ->
+  (q_isneg a = true <-> (fl_q a < 0)%R).
+Proof. exact float_neg_agrees. Qed.
+Print Assumptions C07_float_neg_agrees.
